@@ -267,14 +267,14 @@ pub fn run(ctx: &Ctx) -> Report {
     }
     // workloads with one LARGE shape (more than 1024 points in its last part) between small ones
     if !cfg!(miri) {
-        for &t in &[3, 5, 28] {
+        for &t in &[3, 5, 28, 23, 15, 18] {
             for p in [0usize, 1] {
                 items.push((t, p, 100));
             }
         }
     }
     // byte-level cuts: everywhere in the thorough tier; for three types in the quick tier
-    let bytes_for = |t: i32, variant: usize| -> bool { !cfg!(miri) && (ctx.thorough || matches!(t, 3 | 1 | 11 | 21 | 28 | 31) || variant > 0) };
+    let bytes_for = |_t: i32, _variant: usize| -> bool { !cfg!(miri) }; // byte-level cuts for every type in both tiers (the tiers differ in the pair stride and the number of workloads)
     let mut rep = par(ctx, items.len(), |idx, rep| {
         let (t, placement, variant) = items[idx];
         let mut r = Rng::derive(ctx.seed, &[tag("c11"), t as u64, placement as u64, variant as u64]);
